@@ -269,3 +269,58 @@ func TestPadTrim(t *testing.T) {
 	}
 	vk.Enumerate(t, "pad-trim", len(ls), func(i int) padCase { return padCase{ls[i]} }, checkPad)
 }
+
+// ---- a call rejected for its length leaves its argument untouched ----------------
+//
+// The radix routines work in place and document a panic for lengths that are
+// not a power of 2 (4). A rejected call must not have written to its argument
+// (CoefficientsRadix2/4 validate first; SequenceRadix2/4 reversed coeff[1:]
+// before the validation).
+
+type rejectCase struct {
+	Fn string
+	L  int
+}
+
+func checkRadixReject(c rejectCase) *vk.Failure {
+	vk.Sample("radix-reject-untouched", c)
+	fns := map[string]struct {
+		f     func([]complex128) []complex128
+		valid func(int) bool
+	}{
+		"CoefficientsRadix2": {fourier.CoefficientsRadix2, isPow2},
+		"SequenceRadix2":     {fourier.SequenceRadix2, isPow2},
+		"CoefficientsRadix4": {fourier.CoefficientsRadix4, isPow4},
+		"SequenceRadix4":     {fourier.SequenceRadix4, isPow4},
+	}
+	e := fns[c.Fn]
+	if e.valid(c.L) || c.L < 1 {
+		return nil
+	}
+	vk.NonTrivial("radix-reject", c.Fn, c.L)
+	vk.Class("radix-reject " + c.Fn)
+	x := make([]complex128, c.L)
+	for i := range x {
+		x[i] = complex(float64(i), -float64(i+1))
+	}
+	if f := vk.MustPanic(c.Fn+"/bad-length-panics", func() { e.f(x) }); f != nil {
+		f.Msg += " len=" + itoa(c.L)
+		return f
+	}
+	for i := range x {
+		if x[i] != complex(float64(i), -float64(i+1)) {
+			return vk.Failf(c.Fn+"/input-modified-before-length-panic", "%s on a slice of length %d panicked as documented but left element %d = %v (was %v)", c.Fn, c.L, i, x[i], complex(float64(i), -float64(i+1)))
+		}
+	}
+	return nil
+}
+
+func TestRadixRejectUntouched(t *testing.T) {
+	var cs []rejectCase
+	for _, fn := range []string{"CoefficientsRadix2", "SequenceRadix2", "CoefficientsRadix4", "SequenceRadix4"} {
+		for l := 2; l <= vk.Pick(70, 300); l++ {
+			cs = append(cs, rejectCase{fn, l})
+		}
+	}
+	vk.Enumerate(t, "radix-reject-untouched", len(cs), func(i int) rejectCase { return cs[i] }, checkRadixReject)
+}
